@@ -110,6 +110,50 @@ class GenSkeleton:
         return [(i, "next")]
 
 
+def route_answer_shape(func) -> dict:
+    """What `Node.route_answer` does to the pending-answer table between finding the
+    request's hop-by-hop id and returning: kind in {strictDel, lenientPop, keep, unknown},
+    the source lines (relative to the def) of the lookup test and of the removal."""
+    src = textwrap.dedent(inspect.getsource(func))
+    fn = ast.parse(src).body[0]
+    tbl = "_peer_waiting_answer"
+
+    def touches(n):
+        return any(isinstance(x, ast.Attribute) and x.attr == tbl for x in ast.walk(n))
+    lookup, removal, kind, notes = [], None, "keep", []
+    if any(isinstance(n, ast.With) for n in ast.walk(fn)):
+        notes.append("route_answer takes a lock: the two-step model does not describe it")
+        kind = "unknown"
+    for st in fn.body:
+        if isinstance(st, ast.Expr) and isinstance(st.value, ast.Constant):
+            continue
+        if not touches(st):
+            continue
+        if isinstance(st, (ast.For, ast.While)) or (isinstance(st, ast.Assign) and not removal and not lookup):
+            # the lookup: loop over the table with a membership test, or a comprehension / next(...)
+            tests = [n for n in ast.walk(st) if isinstance(n, ast.Compare) and any(isinstance(o, ast.In) for o in n.ops)]
+            lookup += [n.lineno for n in tests] or [st.lineno]
+            continue
+        if isinstance(st, ast.Delete):
+            removal, kind = st.lineno, ("strictDel" if kind != "unknown" else kind)
+            continue
+        calls = [n for n in ast.walk(st) if isinstance(n, ast.Call) and isinstance(n.func, ast.Attribute)]
+        pops = [c for c in calls if c.func.attr == "pop" and touches(c)]
+        if pops and isinstance(st, (ast.Expr, ast.Assign)):
+            c = pops[0]
+            lenient = len(c.args) + len(c.keywords) >= 2 or any(
+                isinstance(x, ast.Call) and isinstance(x.func, ast.Attribute) and x.func.attr in ("get", "setdefault")
+                for x in ast.walk(c.func.value))
+            removal, kind = st.lineno, (("lenientPop" if lenient else "strictDel") if kind != "unknown" else kind)
+            continue
+        kind = "unknown"
+        notes.append("unrecognised statement on the pending-answer table: " + ast.unparse(st)[:80])
+    if not lookup:
+        kind = "unknown"
+        notes.append("no lookup of the hop-by-hop id found in route_answer")
+    return {"kind": kind, "lookup": lookup, "removal": removal, "notes": notes}
+
+
 def lean_instr(d: dict) -> str:
     return "{ op := .%s, rel := %s, next := %d, alt := %d }" % (d["op"], "true" if d["rel"] else "false", d["next"], d["alt"])
 
@@ -126,9 +170,12 @@ def extract() -> dict:
         sys.path.insert(0, HERE)
     import wpath
     wp = wpath.observe_prog()
+    from diameter.node.node import Node
+    ra = route_answer_shape(Node.route_answer)
     out = {
+        "routeAnswer": ra,
         "wp": wp,
-        "seq": seq.instrs, "sess": sess.instrs, "notes": seq.notes + sess.notes + wp.get("notes", []),
+        "seq": seq.instrs, "sess": sess.instrs, "notes": seq.notes + sess.notes + wp.get("notes", []) + ra["notes"],
         "seqMin": h.SequenceGenerator.MIN_SEQUENCE, "seqMax": h.SequenceGenerator.MAX_SEQUENCE,
         "sessMin": h.SessionGenerator.MIN_SEQUENCE, "sessMax": h.SessionGenerator.MAX_SEQUENCE,
     }
@@ -137,7 +184,7 @@ def extract() -> dict:
 
 def emit(x: dict, write_if_changed) -> bool:
     s = "-- GENERATED by harness/extract_threads.py from /repo's working tree. Do not edit.\n"
-    s += "import DV.Model.Generators\nimport DV.Model.WritePath\nimport DV.Generated.Constants\nnamespace DV.Gen\nopen DV.Gens\n\n"
+    s += "import DV.Model.Generators\nimport DV.Model.WritePath\nimport DV.Model.RouteRace\nimport DV.Generated.Constants\nnamespace DV.Gen\nopen DV.Gens\n\n"
     s += "def seqProgram : List Instr := [\n  " + ",\n  ".join(lean_instr(d) for d in x["seq"]) + " ]\n\n"
     s += "def sessProgram : List Instr := [\n  " + ",\n  ".join(lean_instr(d) for d in x["sess"]) + " ]\n\n"
     # (the MIN/MAX constants are in Generated/Constants.lean)
@@ -147,6 +194,8 @@ def emit(x: dict, write_if_changed) -> bool:
         return "[" + ", ".join("⟨.%s, %s⟩" % (k, "true" if lk else "false") for k, lk in l) + "]"
     s += "def writeProg : DV.WP.Prog :=\n  { " + "\n    ".join(
         f"{name} := {atoms(wp[name])}" for name in ("wOk", "wFail", "lPrefix", "lOk", "lSoft", "lHard")) + " }\n"
+    s += "\n/-- what `Node.route_answer` does with the pending-answer entry after finding it -/\n"
+    s += "def routeAnswerKind : DV.RR.Kind := .%s\n" % x["routeAnswer"]["kind"]
     s += "\nend DV.Gen\n"
     return write_if_changed(os.path.join(GEN, "Threads.lean"), s)
 
